@@ -461,6 +461,7 @@ func runProgram(c *core.Ctx, pool *gjs.Pool, p *program, co *collector, st *stat
 		f["expected.txt"] = p.expected()
 		return f
 	}
+	b.JS.Lines, b.Native.Lines = joinCont(b.JS.Lines), joinCont(b.Native.Lines)
 	if b.BuildErr != nil {
 		if be, ok := b.BuildErr.(*gjs.BuildError); ok && be.Panic {
 			c.Report(core.Case{Keys: []string{"compiler_panic"}, Summary: "compiler internal error on a string table program: " + be.Error(), Files: files()})
@@ -486,6 +487,11 @@ func runProgram(c *core.Ctx, pool *gjs.Pool, p *program, co *collector, st *stat
 		f["observed.txt"] = b.JS.Raw
 		c.Report(core.Case{Keys: []string{"program_aborted"}, Summary: fmt.Sprintf("compiled string table program printed %d lines, want %d; end=%s msg=%s", len(b.JS.Lines), len(p.exp), b.JS.End, b.JS.Msg), Files: f})
 		return
+	}
+	if os.Getenv("VERIF_C14_CORRUPT") != "" {
+		// sensitivity aid: a corrupted prediction must show up (as a specification
+		// guard discard, because the reference toolchain disagrees with it too)
+		p.exp[0].want += ",9"
 	}
 	n, nd := 0, 0
 	for i := range p.exp {
@@ -678,6 +684,26 @@ func Run(c *core.Ctx, pool *gjs.Pool) {
 	}
 }
 
+// joinCont joins the pieces of lines the programs printed with a trailing
+// backslash (see out in the program run time).
+func joinCont(lines []string) []string {
+	out := lines[:0:0]
+	cur, open := "", false
+	for _, l := range lines {
+		if strings.HasSuffix(l, "\\") {
+			cur += strings.TrimSuffix(l, "\\")
+			open = true
+			continue
+		}
+		out = append(out, cur+l)
+		cur, open = "", false
+	}
+	if open {
+		out = append(out, cur)
+	}
+	return out
+}
+
 func srcName(s string) string {
 	switch s {
 	case "lit":
@@ -868,6 +894,7 @@ func replay(c *core.Ctx, pool *gjs.Pool, dir string) {
 			}
 		}
 	}
+	b.JS.Lines, b.Native.Lines = joinCont(b.JS.Lines), joinCont(b.Native.Lines)
 	n := 0
 	for i, w := range want {
 		if i >= len(b.Native.Lines) || b.Native.Lines[i] != w {
